@@ -20,6 +20,8 @@ FIX = {
  "F11": ("b1f6e32", "SimplicialComplex(Hypergraph(..., name='y')) dropped the network attributes (also through HIF for complexes)"),
  "F12": ("10fb8cf", "read_incidence_matrix failed on 1 x m, n x 1 and 1 x 1 files"),
  "F13": ("613ec5e", "uniform_HSBM with a block probability equal to 1 raised TypeError"),
+ "F17": ("6ecd9c0", "bulk adders iterated the members of each element twice: add_edges_from([(iter([1,2]),'x')]) left an edge whose members are not nodes (Hypergraph, DiHypergraph), add_edges_from([iter([3,4]), ...]) an empty first edge, add_simplices_from([(iter([1,2,3]),'x')]) a TypeError and an empty simplex"),
+ "F18": ("624dedf", "an explicit edge ID of another hashable type than int/float/str/tuple (UUID, complex, frozenset, bytes, Fraction-like, an int too large for a float) made add_edge / add_simplex / add_node_to_edge raise TypeError/ValueError/OverflowError from update_uid_counter after the edge was stored; add_simplex([1,2,3], idx=UUID(int=7)) left the complex without the faces"),
  "F14": ("80dbdd7", "spectral_clustering(H, 2, seed=s) differed between two calls with the same seed (ARPACK start vector unseeded; ARPACK's internal restart stream persists across calls - e.g. Hypergraph([[6],[2,5,0,1]]))"),
 }
 # (property, fix key, replay file)   -- a fixed entry suppresses nothing; its replay is run first by every check
@@ -41,6 +43,10 @@ FIXED = [
  ("C16", "F13", "replays/C16-F13-hsbm-p1.json"),
  ("C17", "F14", "replays/C17-F14-spectral.json"),
  ("C18", "F15", "replays/C18-F15-clear_edges.json"), ("C18", "F15", "replays/C18-F15-dh-add_node_to_edge.json"),
+ ("C01", "F17", "replays/C01-F17-bulk-iterator-members.json"), ("C02", "F17", "replays/C02-F17-bulk-iterator-members.json"),
+ ("C03", "F17", "replays/C03-F17-bulk-iterator-members.json"), ("C05", "F17", "replays/C05-F17-bulk-iterator-members.json"),
+ ("C03", "F18", "replays/C03-F18-exotic-id-skips-faces.json"), ("C05", "F18", "replays/C05-F18-exotic-id-raises.json"),
+ ("C05", "F18", "replays/C05-F18-exotic-id-raises-dh.json"),
  ("C04", "F5a", "replays/C04-F5a-idx0.json"), ("C04", "F5b", "replays/C04-F5b-bulk-desc.json"),
  ("C04", "F5c", "replays/C04-F5c-df.json"), ("C04", "F5c", "replays/C04-F5c-dh-bipartite.json"),
 ]
